@@ -7,6 +7,7 @@
  4. TLC validates every recorded trace against RevAbs (spec/trace/TraceRev.tla).
  5. Unaccepted traces are violations; a Python mirror names the failing clause (disagreement with TLC = exit 2).
 """
+import json
 import os
 import random
 import time
@@ -58,7 +59,7 @@ def sessions(K, MaxFault):
     return [p for p in r.printed if isinstance(p, list)], r
 
 
-def _run(pid, tier, seed, models, mutants, graph_sets, decorate, level_text, assumptions, design_rule, write=True):
+def _run(pid, tier, seed, models, mutants, graph_sets, decorate, level_text, assumptions, design_rule, write=True, extra=None):
     t0 = time.time()
     verdict = vlib.Verdict(pid)
     states = trans = 0
@@ -137,6 +138,8 @@ def _run(pid, tier, seed, models, mutants, graph_sets, decorate, level_text, ass
                      "events": by_id[i]["events"][:8], "jvp": by_id[i]["jvp"]} for i in sample_ids],
         "known_findings_reobserved": verdict.known_hits,
     }
+    if extra:
+        coverage.update(extra(verdict, coverage))
     if not write:
         return verdict, coverage
     rc = verdict.finish()
@@ -184,9 +187,18 @@ def c03(tier, seed, replay=None):
                    ("MutAddNoneAliases", dict(N=4, MaxAr=2, KindMode="node"))]
         sets = [dict(N=5, MaxAr=2, KindMode="node"), dict(N=4, MaxAr=2, WithConst=True, KindMode="edge"),
                 dict(N=4, MaxAr=3, KindMode="node"), dict(N=3, MaxAr=3, WithConst=True, KindMode="edge"), dict(N=6, Family="share")]
+    def extra(verdict, coverage):
+        if quick and not os.environ.get("VERIF_SUITE_TRACES"):
+            return {}
+        st = suite_traces(verdict)
+        coverage["states"] += st["states"]
+        coverage["transitions"] += st["transitions"]
+        coverage["traces_validated_against_impl"] += st["backward_passes_validated"]
+        return {"repository_suite_traces": st}
     return _run("C03", tier, seed, models, mutants, sets, decorate, "", ASSUME,
                 "every graph of the exported space (all DAGs with multi-edges, diamonds, dead branches, constants; contribution kinds "
-                "alias/fresh/sparse) is one case; distinct_nontrivial counts distinct (graph, session, builtin?) triples with >= 3 nodes")
+                "alias/fresh/sparse) is one case; distinct_nontrivial counts distinct (graph, session, builtin?) triples with >= 3 nodes",
+                extra=extra)
 
 
 def c10(tier, seed, replay=None):
@@ -231,6 +243,38 @@ def c10(tier, seed, replay=None):
         "snapshotted and compared after every later call"],
         "a case is (graph, session); sessions are TLC-enumerated sequences of 2..3 calls of one VJP function with cotangents from {1,3} "
         "and an optional injected rule failure per call; distinct_nontrivial counts distinct (graph, session, builtin?) with >= 3 nodes")
+
+
+def suite_traces(verdict):
+    """thorough tier of C03: run the repository's own test-suite under passive probes and validate every recorded backward pass
+    (rule applications of the built-in primitives, structure only) against RevAbs.  Returns a coverage dict."""
+    import glob
+    import subprocess
+    d = vlib.subdir("suite-probe")
+    env = dict(os.environ, PYTHONPATH=vlib.REPO + os.pathsep + os.path.join(vlib.ROOT, "harness"), PYTHONDONTWRITEBYTECODE="1",
+               AUTOGRAD_VERIF_PROBE="1", VERIF_PROBE_OUT=os.path.join(d, "probe"))
+    p = subprocess.run([vlib.PY, "-m", "pytest", "-q", "-p", "no:cacheprovider", "-p", "verif_probe", "-o", "addopts=", "--timeout=900", "-n", "8",
+                        os.path.join(vlib.REPO, "tests")], cwd=d, env=env, stdout=subprocess.PIPE, stderr=subprocess.STDOUT, text=True, timeout=3000)
+    summary = p.stdout.strip().splitlines()[-1] if p.stdout.strip() else ""
+    files = sorted(glob.glob(os.path.join(d, "probe.*")))
+    traces = []
+    for f in files:
+        for line in open(f):
+            traces.append(json.loads(line))
+    if not traces:
+        raise vlib.MachineryError("the probe recorded no backward pass while running the suite: %s" % summary)
+    for i, t in enumerate(traces):
+        t["id"] = i + 1
+    parts = vlib.chunks(traces, 12)
+    jfiles = [vlib.write_ndjson(os.path.join(d, "t%d.ndjson" % k), part) for k, part in enumerate(parts)]
+    accepted, g2, d2, _w, inv = vlib.parallel_validate("TraceRevStruct", jfiles, cfg="SPECIFICATION TSpec\n", njvm=12, timeout=900)
+    for t in traces:
+        if t["id"] not in accepted:
+            verdict.violation({"source": "repository test-suite", "nodes": len(t["args"])},
+                              {"reason": "the order in which the built-in rules were applied in a backward pass of the repository's suite is not a "
+                                         "behaviour of RevAbs (a rule applied twice, before its consumers, on a dead node, or missing)", "trace": t})
+    return {"suite_result": summary, "backward_passes_validated": len(traces), "accepted": len(accepted), "states": d2, "transitions": g2,
+            "largest_graph": max(len(t["args"]) for t in traces)}
 
 
 def c19_sessions(tier, seed):
